@@ -343,7 +343,8 @@ func Run(r *vk.Run) {
 		go func() {
 			defer wg.Done()
 			for t := range ch {
-				enum(Case{Initial: t.initial, Prefix: t.prefix, Kind: t.kind}, 0)
+				c := Case{Initial: t.initial, Prefix: t.prefix, Kind: t.kind}
+				r.Guard(c, func() { enum(c, 0) })
 			}
 		}()
 	}
